@@ -754,6 +754,12 @@ class EdgeAttrCanon(ast.NodeTransformer):
     def __init__(self, data_vars: Dict[str, Tuple[str, str, str]]):
         self.data_vars = data_vars      # data name -> (graph text, u name, v name)
 
+    def visit_Name(self, node):
+        if isinstance(node.ctx, ast.Load) and node.id in self.data_vars:
+            g, a, b = self.data_vars[node.id]
+            return ast.parse(f"EDGEATTR({g}, {a}, {b})", mode="eval").body
+        return node
+
     def visit_Subscript(self, node):
         node = self.generic_visit(node)
         v = node.value
@@ -782,7 +788,78 @@ class EdgeAttrCanon(ast.NodeTransformer):
         if isinstance(node.func, ast.Attribute) and isinstance(node.func.value, ast.Name) and node.func.value.id in self.data_vars:
             g, a, b = self.data_vars[node.func.value.id]
             node.func.value = ast.parse(f"EDGEATTR({g}, {a}, {b})", mode="eval").body
+        elif isinstance(node.func, ast.Attribute) and node.func.attr == "get":
+            v = node.func.value
+            # G[u][v].get(X, d)
+            if isinstance(v, ast.Subscript) and isinstance(v.value, ast.Subscript) and dotted(v.value.value) and \
+                    (dotted(v.value.value).endswith("G") or dotted(v.value.value).endswith("graph")):
+                node.func.value = ast.Call(func=ast.Name(id="EDGEATTR", ctx=ast.Load()), args=[v.value.value, v.value.slice, v.slice], keywords=[])
+            # G.edges[u, v].get(X, d)
+            elif isinstance(v, ast.Subscript) and isinstance(v.value, ast.Attribute) and v.value.attr == "edges" and isinstance(v.slice, ast.Tuple) and len(v.slice.elts) == 2:
+                node.func.value = ast.Call(func=ast.Name(id="EDGEATTR", ctx=ast.Load()), args=[v.value.value, v.slice.elts[0], v.slice.elts[1]], keywords=[])
         return node
+
+
+class GetCanon(ast.NodeTransformer):
+    """d[k] if k in d else x  ->  d.get(k, x)      (and the `not in` mirror image)"""
+
+    def visit_IfExp(self, node):
+        node = self.generic_visit(node)
+        t = node.test
+        pos, neg = node.body, node.orelse
+        if isinstance(t, ast.UnaryOp) and isinstance(t.op, ast.Not):
+            t = t.operand
+            pos, neg = neg, pos
+        if isinstance(t, ast.Compare) and len(t.ops) == 1 and isinstance(t.ops[0], (ast.In, ast.NotIn)):
+            if isinstance(t.ops[0], ast.NotIn):
+                pos, neg = neg, pos
+            k, d = t.left, t.comparators[0]
+            if isinstance(pos, ast.Subscript) and ast.dump(pos.value) == ast.dump(d) and ast.dump(pos.slice) == ast.dump(k):
+                return ast.Call(func=ast.Attribute(value=d, attr="get", ctx=ast.Load()), args=[k, neg], keywords=[])
+        return node
+
+
+class ComprehensionEdges(ast.NodeTransformer):
+    """comprehension generators `u, v, data in G.edges(data=True)` -> `u, v in G.edges` with data[...] -> EDGEATTR(G, u, v)[...]"""
+
+    def _comp(self, node):
+        node = self.generic_visit(node)
+        data_vars: Dict[str, Tuple[str, str, str]] = {}
+        for g in node.generators:
+            it = norm(g.iter)
+            m = re.match(r"^([\w.]+)\.edges\(data=True\)$", it)
+            if m and isinstance(g.target, ast.Tuple) and len(g.target.elts) == 3 and all(isinstance(x, ast.Name) for x in g.target.elts):
+                u, v, d = [x.id for x in g.target.elts]
+                data_vars[d] = (m.group(1), u, v)
+                g.target = ast.Tuple(elts=g.target.elts[:2], ctx=ast.Store())
+                g.iter = ast.parse(f"{m.group(1)}.edges", mode="eval").body
+            elif re.match(r"^([\w.]+)\.edges\(\)$", it):
+                g.iter = g.iter.func
+        if data_vars:
+            ec = EdgeAttrCanon(data_vars)
+            for fld in ("elt", "key", "value"):
+                if hasattr(node, fld):
+                    setattr(node, fld, ec.visit(getattr(node, fld)))
+            for g in node.generators:
+                g.ifs = [ec.visit(c) for c in g.ifs]
+        return node
+
+    visit_GeneratorExp = _comp
+    visit_ListComp = _comp
+    visit_SetComp = _comp
+    visit_DictComp = _comp
+
+
+def canon_expr(e: ast.AST) -> ast.AST:
+    """value-level canonical form shared by the rules: edge-attribute idioms, dict.get idiom, comprehension variables"""
+    x = copy.deepcopy(e)
+    x = ComprehensionEdges().visit(x)
+    x = EdgeAttrCanon({}).visit(x)
+    x = GetCanon().visit(x)
+    x = _tuple_index_simplify(x)
+    x = _rename_comprehensions(x)
+    ast.fix_missing_locations(x)
+    return x
 
 
 class ParenTuple(ast.NodeTransformer):
@@ -1166,7 +1243,9 @@ def canon_effect(eff: Effect, var_names: Set[str]) -> Dict[str, object]:
 
     def canon(e: ast.AST) -> ast.AST:
         e = copy.deepcopy(e)
+        e = ComprehensionEdges().visit(e)
         e = EdgeAttrCanon(data_vars).visit(e)
+        e = GetCanon().visit(e)
         e = Renamer(mapping).visit(e)
         # alpha-rename comprehension-bound names
         e = _rename_comprehensions(e)
